@@ -620,6 +620,74 @@ fn uniqueness(rounds: usize, rep: &mut Report) {
     }
 }
 
+/// Many sessions started at the same instant: `threads` host threads meet at a spin barrier before every start (the
+/// documents are parsed beforehand, so nothing but the start itself lies between the barrier and the id allocation).
+/// All ids handed out must be distinct and every session must be reachable under its id.
+fn burst_ids(threads: usize, per_thread: usize, rep: &mut Report) {
+    use std::sync::atomic::{AtomicUsize, Ordering};
+    const DOC: &str = r##"<scxml xmlns="http://www.w3.org/2005/07/scxml" version="1.0" datamodel="null" initial="w"><state id="w"><transition event="end" target="f"/></state><final id="f"/></scxml>"##;
+    let case = Case::new();
+    let arrived = Arc::new(AtomicUsize::new(0));
+    let mut hs = Vec::new();
+    for _ in 0..threads {
+        let ex = case.executor.clone();
+        let actions = case.actions.get_copy();
+        let arrived = arrived.clone();
+        hs.push(std::thread::spawn(move || {
+            let mut docs: Vec<_> = (0..per_thread).filter_map(|_| parse_xml(DOC).ok()).collect();
+            let mut ids = Vec::new();
+            let mut k = 0usize;
+            while let Some(f) = docs.pop() {
+                k += 1;
+                arrived.fetch_add(1, Ordering::SeqCst);
+                let t0 = std::time::Instant::now();
+                while arrived.load(Ordering::SeqCst) < k * threads {
+                    std::hint::spin_loop();
+                    if t0.elapsed() > Duration::from_secs(20) {
+                        break;
+                    }
+                }
+                let s = rufsm::fsm::start_fsm(f, actions.get_copy(), Box::new(ex.clone()));
+                ids.push(s.session_id);
+            }
+            ids
+        }));
+    }
+    let mut ids: Vec<u32> = Vec::new();
+    for h in hs {
+        if let Ok(v) = h.join() {
+            ids.extend(v);
+        }
+    }
+    rep.evaluations += 1;
+    rep.count("sessions_started_in_bursts", ids.len() as u64);
+    let distinct: BTreeSet<u32> = ids.iter().cloned().collect();
+    if distinct.len() != ids.len() {
+        let mut seen = BTreeSet::new();
+        let dups: Vec<u32> = ids.iter().filter(|i| !seen.insert(**i)).cloned().take(10).collect();
+        rep.violation(
+            "duplicate-session-id",
+            &format!("{} sessions started by {} threads at the same instant got only {} distinct session ids (e.g. {:?} handed out twice)", ids.len(), threads, distinct.len(), dups),
+            json!({"threads": threads, "starts_per_thread": per_thread, "document": DOC, "duplicates": dups}),
+        );
+    }
+    // every session is reachable under its id: `end` terminates it
+    let mut unreachable = 0;
+    for id in &distinct {
+        if case.executor.send_to_session(*id, rufsm::fsm::Event::new_simple("end")).is_err() {
+            unreachable += 1;
+        }
+    }
+    if unreachable > 0 && distinct.len() == ids.len() {
+        rep.violation(
+            "session-not-reachable-under-its-id",
+            &format!("{} of {} freshly started sessions cannot be addressed by the id they were given", unreachable, ids.len()),
+            json!({"threads": threads, "starts_per_thread": per_thread}),
+        );
+    }
+    let _ = rec::take_log();
+}
+
 pub fn run(args: &Args, rep: &mut Report) {
     let dms: Vec<&str> = if cfg!(feature = "full") { vec!["rfsm-expression", "ecmascript"] } else { vec!["rfsm-expression"] };
     let reps = args.scale(1, 6);
@@ -629,4 +697,5 @@ pub fn run(args: &Args, rep: &mut Report) {
         }
     }
     uniqueness(args.scale(1, 8), rep);
+    burst_ids(8, args.scale(60, 400), rep);
 }
